@@ -39,7 +39,7 @@ type H3Script struct {
 	Status  int       // < 0: the stream ends (per End) before any response HEADERS
 	Interim [][]Field // interim (1xx) header blocks written before the final one, each with its :status
 	Fields  []Field   // response fields (content-length included when declared)
-	HdrCut  int     // > 0: only the first HdrCut bytes of the HEADERS frame are written, then End
+	HdrCut  int       // > 0: only the first HdrCut bytes of the HEADERS frame are written, then End
 	Actions []H3Action
 	End     string // fin | reset | connclose
 	Code    uint64 // error code of reset / connclose
